@@ -74,6 +74,9 @@ theorem C03_could_write_iff_representable_flag (direct : Bool) (t : IntT)
   · exact ⟨0, by decide, rfl⟩
   · exact ⟨1, by decide, rfl⟩
 
+example : ArgOk .flag 1 ⟨false, 8⟩ 1 ∧ (fieldView .flag false exBB 10 1).couldWrite ⟨false, 8⟩ 1 = true :=
+  ⟨Or.inr rfl, rfl⟩
+
 /-- **EnumView::CouldWriteValue**, unsigned enums (any underlying type `uw ≥ w`, any buffer
 value type): accepts exactly `x < 2^w`. -/
 theorem C03_could_write_iff_representable_enum (h : Placed bb o w) (direct : Bool) (uw : Nat)
@@ -104,6 +107,10 @@ theorem C03_could_write_enum_signed_partial (h : Placed bb o w) (direct : Bool)
   simp only [View.couldWrite, fieldView, fieldBuf_W, ← hW, Bool.and_eq_true, Bool.or_eq_true,
     decide_eq_true_eq, if_true]
   exact ⟨(toSigned_ofInt (by have := h.w_pos; omega) ha.1 ha.2).symm, Or.inl trivial⟩
+
+-- non-vacuity: an `int8_t` enum occupying one byte of a struct (`w = uw = W = 8`)
+example : exBB8.W = 8 ∧ (fieldView (.enum 8 true) true exBB8 0 8).couldWrite ⟨true, 8⟩ (-128) = true := by
+  decide
 
 /-- **Counterexample**: a 4-bit field of an `int8_t` enum refuses `-1` (representable in
 4-bit two's complement) and accepts `15` (not representable). -/
@@ -162,6 +169,13 @@ theorem C03_write_frame (h : Placed bb o w) (direct : Bool)
   refine ⟨bytes', hw, ?_, by rw [hfb]; exact hu, fun o' w' hdis => bits_disjoint_of_updated hu hdis⟩
   have h1 := hp.len; have h2 := h.len
   simp only at h1; omega
+
+-- non-vacuity (test): writing -3 into bits 9..13 of `12 34 56` (big endian) changes only those
+-- bits: 0x123456 → 0x123a56; the neighbouring fields (bits 0..8 and 14..23) read as before
+example : ∃ v', (fieldView .int false exBB 9 5).tryToWrite ⟨true, 8⟩ (-3) = .written v' ∧
+    fieldBits v'.buf.bitBlock 0 9 = fieldBits exBB 0 9 ∧
+    fieldBits v'.buf.bitBlock 14 10 = fieldBits exBB 14 10 ∧
+    fieldBits v'.buf.bitBlock 9 5 = 29 := ⟨_, rfl, by decide, by decide, by decide⟩
 
 /-- **Failed write**: if `CouldWriteValue(x)` is false or the view is incomplete,
 `TryToWrite(x)` returns false without calling `WriteUInt` (the buffer is not touched). -/
